@@ -1148,7 +1148,7 @@ theorem execWithdraw_inv {cfg : Cfg} {s s' : State} {a pl i x y : Nat} (hi : Inv
       have b4 : ∀ z d, s4.bal z d = if z = .module ∧ d = .pool a pl then s3.bal .module (.pool a pl) - r.pc else s3.bal z d := by
         intro z d
         rw [← h4]
-        simp only [State.bal, Bank.get_set, State.modPool, Prod.mk.injEq]
+        simp only [State.bal, Bank.get_set, Prod.mk.injEq]
         by_cases hc : z = .module ∧ d = .pool a pl
         · obtain ⟨rfl, rfl⟩ := hc; simp
         · have : ¬ (Acct.module = z ∧ Denom.pool a pl = d) := fun hh => hc ⟨hh.1.symm, hh.2.symm⟩
@@ -1216,5 +1216,762 @@ theorem execWithdraw_inv {cfg : Cfg} {s s' : State} {a pl i x y : Nat} (hi : Inv
       · apply hi.ords_of; exact ho5
     · cases h4
   · cases h4
+
+
+/-! ### batch execution -/
+
+/-- replacing an order by one with the same escrow claim keeps the invariant -/
+theorem Inv.modO_same {cfg : Cfg} {s : State} (hi : Inv cfg s) (k : OKey) (g : Order → Order)
+    (hg : ∀ x, s.order? k = some x → (∀ a p d, liveTerm cfg a p d (g x) = liveTerm cfg a p d x) ∧ OrderOk cfg (g x)) :
+    Inv cfg (s.modO k g) := by
+  refine ⟨hi.escrow, ?_, hi.farm, hi.zero, hi.qpos, ?_⟩
+  · intro a p d
+    show s.bal _ d + s.bal _ d = liveSum cfg a p d (modBy (isO k) g s.orders) + s.bal _ d
+    cases hx : s.order? k with
+    | none => rw [modBy_of_none hx]; exact hi.pairEsc a p d
+    | some x =>
+      have hs := sumOver_modBy (liveTerm cfg a p d) g hx
+      rw [(hg x hx).1 a p d] at hs
+      have := hi.pairEsc a p d
+      unfold liveSum at this ⊢
+      omega
+  · show ∀ o ∈ modBy (isO k) g s.orders, _
+    apply forall_modBy hi.ords
+    intro x hx
+    exact (hg x hx).2
+
+theorem prePass_inv {cfg : Cfg} {s s' : State} {k : OKey} (hi : Inv cfg s) (h : prePass cfg s k = some s') : Inv cfg s' := by
+  unfold prePass at h
+  split at h; · cases h
+  rename_i o ho
+  split at h
+  · rename_i hst
+    cases h
+    apply hi.modO_same
+    intro x hx
+    have hxo : x = o := by rw [ho] at hx; exact (Option.some.inj hx).symm
+    subst hxo
+    have hok := hi.ords x (order?_some ho).1
+    refine ⟨fun a p d => ?_, ?_⟩
+    · simp [liveTerm, hst, OStatus.live, feeRes]
+    · refine ⟨by simpa [feeRes] using hok.1, hok.2.1, fun _ => ?_, fun hh => ?_⟩
+      · exact hok.2.2.1 (by simp [hst, OStatus.live])
+      · simp [OStatus.live] at hh
+  · split at h
+    · exact finishOrder_inv rfl hi h
+    · cases h; exact hi
+  · split at h
+    · exact finishOrder_inv rfl hi h
+    · cases h; exact hi
+  · cases h; exact hi
+  · cases h
+
+theorem markDepleted_inv {cfg : Cfg} {s : State} (hi : Inv cfg s) (p : Pair) : Inv cfg (markDepleted s p) := by
+  refine ⟨hi.escrow, hi.pairEsc, hi.farm, ?_, hi.qpos, hi.ords⟩
+  intro q hq h0
+  simp only [markDepleted, List.mem_map] at hq
+  obtain ⟨x, hx, rfl⟩ := hq
+  by_cases hc : (x.app == p.app && x.pair == p.id && !x.disabled && depleted s p x) = true
+  · simp [hc]
+  · simp only [hc] at h0 ⊢
+    exact hi.zero x hx h0
+
+theorem poolPayIn_inv {cfg : Cfg} {p : Pair} {s s' : State} {f : PoolFlow} (hi : Inv cfg s)
+    (h : poolPayIn p s f = some s') : Inv cfg s' := by
+  unfold poolPayIn at h
+  simp only [] at h
+  split at h; · cases h
+  rename_i s1 h1
+  cases h
+  obtain ⟨le1, -, b1⟩ := State.send_some (by simp) h1
+  have f1 := State.send_fields h1
+  refine ⟨?_, ?_, ?_, ?_, ?_, ?_⟩
+  · apply hi.escrow_of
+    · intro d; show (s1.credit _ _ _).bal .gEscrow d = _; rw [State.bal_credit]; simp [b1]
+    · exact f1.2.2.1
+    · exact f1.2.2.2.1
+  · intro a q d
+    show (s1.credit _ _ _).bal (.pairEscrow a q) d + (s1.credit _ _ _).bal (.mOut a q) d =
+      liveSum cfg a q d s1.orders + (s1.credit _ _ _).bal (.mIn a q) d
+    rw [f1.2.2.2.2.1, State.bal_credit, State.bal_credit, State.bal_credit]
+    have hinv := hi.pairEsc a q d
+    have eO : s1.bal (.mOut a q) d = s.bal (.mOut a q) d := by simp [b1]
+    have eI : ∀ a' q' d', s1.bal (.mIn a' q') d' = s.bal (.mIn a' q') d' := by intro a' q' d'; simp [b1]
+    have eE : s1.bal (.pairEscrow a q) d =
+        if (a = p.app ∧ q = p.id) ∧ d = sideIn p f.buy then s.bal (.pairEscrow p.app p.id) (sideIn p f.buy) + f.paid
+        else s.bal (.pairEscrow a q) d := by rw [b1]; simp
+    simp only [reduceCtorEq, false_and, if_false, eO, eI, eE, Acct.mIn.injEq]
+    by_cases hc : (a = p.app ∧ q = p.id) ∧ d = sideIn p f.buy
+    · obtain ⟨⟨rfl, rfl⟩, rfl⟩ := hc; simp; omega
+    · have : ¬ ((p.app = a ∧ p.id = q) ∧ sideIn p f.buy = d) := fun hh => hc ⟨⟨hh.1.1.symm, hh.1.2.symm⟩, hh.2.symm⟩
+      simp [hc, this]; omega
+  · apply hi.farm_of
+    · intro a q; show (s1.credit _ _ _).bal .module _ = _; rw [State.bal_credit]; simp [b1]
+    · exact f1.2.2.2.2.2.2.1
+  · apply hi.zero_of; exact f1.2.1
+  · apply hi.qpos_of; exact f1.2.2.2.2.2.2.1
+  · apply hi.ords_of; exact f1.2.2.2.2.1
+
+/-- a send out of a pair escrow matched by a credit of the `mOut` ghost account -/
+theorem payOut_inv {cfg : Cfg} {s s1 : State} {a0 p0 : Nat} {t : Acct} {d0 : Denom} {n : Nat} (hi : Inv cfg s)
+    (ht : t ≠ .gEscrow ∧ t ≠ .module ∧ (∀ a p, t ≠ .pairEscrow a p) ∧ (∀ a p, t ≠ .mIn a p) ∧ (∀ a p, t ≠ .mOut a p))
+    (h1 : s.send (.pairEscrow a0 p0) t d0 n = some s1) : Inv cfg (s1.credit (.mOut a0 p0) d0 n) := by
+  obtain ⟨le1, -, b1⟩ := State.send_some (fun e => ht.2.2.1 a0 p0 e.symm) h1
+  have f1 := State.send_fields h1
+  obtain ⟨t1, t2, t3, t4, t5⟩ := ht
+  refine ⟨?_, ?_, ?_, ?_, ?_, ?_⟩
+  · apply hi.escrow_of
+    · intro d; show (s1.credit _ _ _).bal .gEscrow d = _; rw [State.bal_credit]
+      have : ¬ (Acct.gEscrow = t) := fun e => t1 e.symm
+      simp [b1, this]
+    · exact f1.2.2.1
+    · exact f1.2.2.2.1
+  · intro a q d
+    show (s1.credit _ _ _).bal (.pairEscrow a q) d + (s1.credit _ _ _).bal (.mOut a q) d =
+      liveSum cfg a q d s1.orders + (s1.credit _ _ _).bal (.mIn a q) d
+    rw [f1.2.2.2.2.1, State.bal_credit, State.bal_credit, State.bal_credit]
+    have hinv := hi.pairEsc a q d
+    have n1 : ¬ (Acct.mOut a q = t) := fun e => t5 a q e.symm
+    have n2 : ∀ a' q', ¬ (Acct.mIn a' q' = t) := fun a' q' e => t4 a' q' e.symm
+    have n3 : ¬ (Acct.pairEscrow a q = t) := fun e => t3 a q e.symm
+    have eO : ∀ a' q' d', s1.bal (.mOut a' q') d' = s.bal (.mOut a' q') d' := by
+      intro a' q' d'; have : ¬ (Acct.mOut a' q' = t) := fun e => t5 a' q' e.symm
+      simp [b1, this]
+    have eI : s1.bal (.mIn a q) d = s.bal (.mIn a q) d := by simp [b1, n2]
+    have eE : s1.bal (.pairEscrow a q) d =
+        if (a = a0 ∧ q = p0) ∧ d = d0 then s.bal (.pairEscrow a0 p0) d0 - n else s.bal (.pairEscrow a q) d := by
+      rw [b1]; simp [n3]
+    simp only [reduceCtorEq, false_and, if_false, eO, eI, eE, Acct.mOut.injEq]
+    by_cases hc : (a = a0 ∧ q = p0) ∧ d = d0
+    · obtain ⟨⟨rfl, rfl⟩, rfl⟩ := hc; simp; omega
+    · have : ¬ ((a0 = a ∧ p0 = q) ∧ d0 = d) := fun hh => hc ⟨⟨hh.1.1.symm, hh.1.2.symm⟩, hh.2.symm⟩
+      simp [hc, this]; omega
+  · apply hi.farm_of
+    · intro a q; show (s1.credit _ _ _).bal .module _ = _; rw [State.bal_credit]
+      have : ¬ (Acct.module = t) := fun e => t2 e.symm
+      simp [b1, this]
+    · exact f1.2.2.2.2.2.2.1
+  · apply hi.zero_of; exact f1.2.1
+  · apply hi.qpos_of; exact f1.2.2.2.2.2.2.1
+  · apply hi.ords_of; exact f1.2.2.2.2.1
+
+theorem poolPayOut_inv {cfg : Cfg} {p : Pair} {s s' : State} {f : PoolFlow} (hi : Inv cfg s)
+    (h : poolPayOut p s f = some s') : Inv cfg s' := by
+  unfold poolPayOut at h
+  simp only [] at h
+  split at h; · cases h
+  rename_i s1 h1
+  cases h
+  exact payOut_inv hi (by simp) h1
+
+theorem fillPayOut_inv {cfg : Cfg} {p : Pair} {s s' : State} {f : Fill} (hi : Inv cfg s)
+    (h : fillPayOut p s f = some s') : Inv cfg s' := by
+  unfold fillPayOut at h
+  simp only [] at h
+  split at h; · cases h
+  split at h; · cases h
+  rename_i s1 h1
+  cases h
+  exact payOut_inv hi (by simp) h1
+
+
+theorem fillOrder_inv {cfg : Cfg} {p : Pair} {s s' : State} {f : Fill} (hi : Inv cfg s)
+    (h : fillOrder cfg p s f = some s') : Inv cfg s' := by
+  unfold fillOrder at h
+  simp only [] at h
+  split at h; · cases h
+  rename_i o ho
+  split at h; · cases h
+  rename_i hg
+  have hlive : o.status.live = true := by
+    cases hl : o.status.live with
+    | true => rfl
+    | false => exact absurd (Or.inl (by simp [hl])) hg
+  have hod : o.od = sideIn p f.buy := by
+    by_cases hh : o.od = sideIn p f.buy
+    · exact hh
+    · exact absurd (Or.inr (Or.inl hh)) hg
+  have hpaid : f.paid ≤ o.remaining := by
+    by_cases hh : o.remaining < f.paid
+    · exact absurd (Or.inr (Or.inr (Or.inl hh))) hg
+    · omega
+  obtain ⟨hmem, hoa, hop, -⟩ := order?_some ho
+  simp only at hoa hop
+  have hok := hi.ords o hmem
+  have hmid : Inv cfg ((s.modO (p.app, p.id, f.id) fun o => { o with openAmt := o.openAmt - f.matched, remaining := o.remaining - f.paid, received := o.received + f.recv, status := .partially }).credit (.mIn p.app p.id) (sideIn p f.buy) f.paid) := by
+    refine ⟨?_, ?_, ?_, hi.zero, hi.qpos, ?_⟩
+    · intro d
+      show (State.credit _ _ _ _).bal .gEscrow d = depSum d s.deps + wdrSum d s.wdrs
+      rw [State.bal_credit]; simp
+      exact hi.escrow d
+    · intro a q d
+      show (State.credit _ _ _ _).bal (.pairEscrow a q) d + (State.credit _ _ _ _).bal (.mOut a q) d =
+        liveSum cfg a q d (modBy (isO (p.app, p.id, f.id)) _ s.orders) + (State.credit _ _ _ _).bal (.mIn a q) d
+      rw [State.bal_credit, State.bal_credit, State.bal_credit]
+      have hs := sumOver_modBy (liveTerm cfg a q d) (fun o => { o with openAmt := o.openAmt - f.matched, remaining := o.remaining - f.paid, received := o.received + f.recv, status := .partially }) ho
+      have hinv := hi.pairEsc a q d
+      unfold liveSum at hinv ⊢
+      simp only [reduceCtorEq, false_and, if_false, Acct.mIn.injEq]
+      show s.bal (.pairEscrow a q) d + s.bal (.mOut a q) d = _ + _
+      by_cases hc : (p.app = a ∧ p.id = q) ∧ sideIn p f.buy = d
+      · obtain ⟨⟨rfl, rfl⟩, rfl⟩ := hc
+        have t1 : liveTerm cfg p.app p.id (sideIn p f.buy) o = o.remaining + feeRes (rateOf cfg o.app) o := by
+          simp [liveTerm, hoa, hop, hod, hlive]
+        have t2 : liveTerm cfg p.app p.id (sideIn p f.buy) { o with openAmt := o.openAmt - f.matched, remaining := o.remaining - f.paid, received := o.received + f.recv, status := .partially } = o.remaining - f.paid + feeRes (rateOf cfg o.app) o := by
+          simp [liveTerm, hoa, hop, hod, OStatus.live, feeRes]
+        rw [t1, t2] at hs
+        simp
+        show s.bal _ _ + s.bal _ _ = _ + (s.bal _ _ + _)
+        omega
+      · have t1 : liveTerm cfg a q d o = 0 := by
+          simp only [liveTerm]; rw [if_neg]
+          intro hh; apply hc; rw [← hoa, ← hop, ← hod]; exact ⟨⟨hh.1, hh.2.1⟩, hh.2.2.1⟩
+        have t2 : liveTerm cfg a q d { o with openAmt := o.openAmt - f.matched, remaining := o.remaining - f.paid, received := o.received + f.recv, status := .partially } = 0 := by
+          simp only [liveTerm]; rw [if_neg]
+          intro hh; apply hc; rw [← hoa, ← hop, ← hod]; exact ⟨⟨hh.1, hh.2.1⟩, hh.2.2.1⟩
+        rw [t1, t2] at hs
+        simp [hc]
+        show s.bal _ _ + s.bal _ _ = _ + s.bal _ _
+        omega
+    · intro a q
+      show (State.credit _ _ _ _).bal .module _ = farmSum a q s.farmers
+      rw [State.bal_credit]; simp
+      exact hi.farm a q
+    · show ∀ o' ∈ modBy (isO (p.app, p.id, f.id)) _ s.orders, OrderOk cfg o'
+      apply forall_modBy hi.ords
+      intro x hx
+      have hxo : x = o := by
+        have : s.order? (p.app, p.id, f.id) = some x := hx
+        rw [ho] at this; exact (Option.some.inj this).symm
+      subst hxo
+      refine ⟨by simpa [feeRes] using hok.1, ?_, fun _ => hok.2.2.1 hlive, fun hh => ?_⟩
+      · show x.remaining - f.paid ≤ x.offer
+        have := hok.2.1; omega
+      · simp [OStatus.live] at hh
+  split at h
+  · exact finishOrder_inv rfl hmid h
+  · cases h; exact hmid
+
+theorem applyMatch_inv {cfg : Cfg} {s s' : State} {p : Pair} {m : MatchIn} (hi : Inv cfg s)
+    (h : applyMatch cfg s p m = some s') : Inv cfg s' := by
+  unfold applyMatch at h
+  split at h; · cases h
+  rename_i s1 h1
+  split at h; · cases h
+  rename_i s2 h2
+  split at h; · cases h
+  rename_i s3 h3
+  split at h; · cases h
+  rename_i s4 h4
+  split at h; · cases h
+  rename_i s5 h5
+  cases h
+  have i1 := foldOpt_preserves (fun s x s' hp hs => poolPayIn_inv hp hs) _ _ _ hi h1
+  have i2 := foldOpt_preserves (fun s x s' hp hs => fillOrder_inv hp hs) _ _ _ i1 h2
+  have i3 := foldOpt_preserves (fun s x s' hp hs => fillPayOut_inv hp hs) _ _ _ i2 h3
+  have i4 := foldOpt_preserves (fun s x s' hp hs => poolPayOut_inv hp hs) _ _ _ i3 h4
+  exact payOut_inv i4 (by simp) h5
+
+theorem execMatching_inv {cfg : Cfg} {ms : List MatchIn} {s s' : State} {pk : Nat × Nat} (hi : Inv cfg s)
+    (h : execMatching cfg ms s pk = some s') : Inv cfg s' := by
+  unfold execMatching at h
+  split at h; · cases h
+  rename_i p hp
+  simp only [] at h
+  split at h; · cases h
+  rename_i s1 h1
+  split at h; · cases h
+  rename_i s3 h3
+  cases h
+  have i1 := foldOpt_preserves (fun s x s' hp hs => prePass_inv hp hs) _ _ _ hi h1
+  exact (applyMatch_inv (markDepleted_inv i1 p) h3).modPair _ _ _
+
+theorem sweep_inv {cfg : Cfg} {s s' : State} {k : OKey} (hi : Inv cfg s) (h : sweep cfg s k = some s') : Inv cfg s' := by
+  unfold sweep at h
+  split at h; · cases h
+  split at h
+  · exact finishOrder_inv rfl hi h
+  · split at h
+    · exact finishOrder_inv rfl hi h
+    · cases h; exact hi
+
+theorem qTotal_filter (P : Nat × Int → Bool) (l : List (Nat × Int)) :
+    qTotal (l.filter P) + qTotal (l.filter fun q => !P q) = qTotal l := by
+  induction l with
+  | nil => rfl
+  | cons x t ih =>
+    by_cases hx : P x = true
+    · simp [List.filter, hx, qTotal]; omega
+    · have : P x = false := by simpa using hx
+      simp [List.filter, this, qTotal]; omega
+
+theorem processQueued_inv {cfg : Cfg} {s : State} (hi : Inv cfg s) (app : Nat) : Inv cfg (processQueued cfg s app) := by
+  refine ⟨hi.escrow, hi.pairEsc, ?_, hi.zero, ?_, hi.ords⟩
+  · intro a p
+    show s.bal .module (.pool a p) = farmSum a p (s.farmers.map _)
+    rw [hi.farm a p]
+    unfold farmSum
+    symm
+    apply sumOver_map
+    intro f _
+    split
+    · simp only [farmTerm, activate]
+      have := qTotal_filter (fun q => decide (s.now < q.2 + cfg.queueDur)) f.queued
+      by_cases hc : f.app = a ∧ f.pool = p <;> simp [hc] <;> omega
+    · rfl
+  · intro f hf q hq
+    simp only [processQueued, List.mem_map] at hf
+    obtain ⟨x, hx, rfl⟩ := hf
+    split at hq
+    · simp only [activate, List.mem_filter] at hq
+      exact hi.qpos x hx q hq.1
+    · exact hi.qpos x hx q hq
+
+theorem endBlock_inv {cfg : Cfg} {s s' : State} {app : Nat} {ms : List MatchIn} {dins : List DepIn} {wins : List WdrIn}
+    (hi : Inv cfg s) (h : endBlock cfg s app ms dins wins = some s') : Inv cfg s' := by
+  unfold endBlock at h
+  split at h; · cases h
+  split at h; · cases h; exact hi
+  simp only [] at h
+  split at h; · cases h
+  rename_i s1 h1
+  split at h; · cases h
+  rename_i s2 h2
+  split at h; · cases h
+  rename_i s3 h3
+  split at h; · cases h
+  rename_i s4 h4
+  cases h
+  have i1 := foldOpt_preserves (fun s x s' hp hs => execMatching_inv hp hs) _ _ _ hi h1
+  have i2 := foldOpt_preserves (fun s x s' hp hs => sweep_inv hp hs) _ _ _ i1 h2
+  have i3 := foldOpt_preserves (P := Inv cfg) (fun s x s' hp hs => by
+    unfold execDepStep at hs; exact execDeposit_inv hp hs) _ _ _ i2 h3
+  have i4 := foldOpt_preserves (P := Inv cfg) (fun s x s' hp hs => by
+    unfold execWdrStep at hs; exact execWithdraw_inv hp hs) _ _ _ i3 h4
+  exact processQueued_inv i4 app
+
+theorem beginBlock_inv {cfg : Cfg} {s : State} (hi : Inv cfg s) (app : Nat) : Inv cfg (beginBlock s app) := by
+  refine ⟨?_, ?_, hi.farm, hi.zero, hi.qpos, ?_⟩
+  · intro d
+    show s.bal .gEscrow d = depSum d (s.deps.filter _) + wdrSum d (s.wdrs.filter _)
+    unfold depSum wdrSum
+    rw [sumOver_filter, sumOver_filter]
+    · exact hi.escrow d
+    · intro x _ hx
+      simp only [wdrTerm]
+      rw [if_neg]
+      intro hh
+      simp [hh.1] at hx
+      exact absurd hx.2 (by decide)
+    · intro x _ hx
+      simp only [depTerm]
+      rw [if_neg]
+      intro hh
+      simp [hh] at hx
+      exact absurd hx.2 (by decide)
+  · intro a p d
+    show s.bal _ d + s.bal _ d = liveSum cfg a p d (s.orders.filter _) + s.bal _ d
+    unfold liveSum
+    rw [sumOver_filter]
+    · exact hi.pairEsc a p d
+    · intro x _ hx
+      simp only [liveTerm]
+      rw [if_neg]
+      intro hh
+      simp [hh.2.2.2] at hx
+  · intro o ho
+    simp only [beginBlock, List.mem_filter] at ho
+    exact hi.ords o ho.1
+
+
+/-! ### pairs, pools, farming -/
+
+/-- every app's `MinInitialPoolCoinSupply` is positive (`validateMinInitialPoolCoinSupply`) -/
+def CfgOk (cfg : Cfg) : Prop := ∀ ac ∈ cfg.apps, 0 < ac.minInitSupply
+
+theorem app?_mem {cfg : Cfg} {a : Nat} {ac : AppCfg} (h : cfg.app? a = some ac) : ac ∈ cfg.apps := by
+  unfold Cfg.app? at h
+  exact List.mem_of_find?_eq_some h
+
+theorem createPair_inv {cfg : Cfg} {s s' : State} {app creator : Nat} {base quote : Denom} {ext : Bool} (hi : Inv cfg s)
+    (h : createPair cfg s app creator base quote ext = some s') : Inv cfg s' := by
+  unfold createPair at h
+  split at h; · cases h
+  split at h; · cases h
+  split at h; · cases h
+  split at h; · cases h
+  split at h; · cases h
+  rename_i s1 h1
+  cases h
+  obtain ⟨-, -, b1⟩ := State.send_some (by simp) h1
+  have f1 := State.send_fields h1
+  refine ⟨?_, ?_, ?_, ?_, ?_, ?_⟩
+  · apply hi.escrow_of
+    · intro d; show s1.bal .gEscrow d = _; simp [b1]
+    · exact f1.2.2.1
+    · exact f1.2.2.2.1
+  · apply hi.pairEsc_of
+    · intro a q d
+      refine ⟨?_, ?_, ?_⟩ <;> (show s1.bal _ d = _; simp [b1])
+    · exact f1.2.2.2.2.1
+  · apply hi.farm_of
+    · intro a q; show s1.bal .module _ = _; simp [b1]
+    · exact f1.2.2.2.2.2.2.1
+  · apply hi.zero_of; exact f1.2.1
+  · apply hi.qpos_of; exact f1.2.2.2.2.2.2.1
+  · apply hi.ords_of; exact f1.2.2.2.2.1
+
+theorem createPool_inv {cfg : Cfg} (hc : CfgOk cfg) {s s' : State} {app creator pair : Nat} {ranged : Bool} {dx dy ammPs : Nat}
+    {ext : Bool} (hi : Inv cfg s) (h : createPool cfg s app creator pair ranged dx dy ammPs ext = some s') : Inv cfg s' := by
+  unfold createPool at h
+  split at h; · cases h
+  split at h; · cases h
+  rename_i ac hac
+  split at h; · cases h
+  rename_i p hp
+  split at h; · cases h
+  simp only [] at h
+  split at h; · cases h
+  split at h; · cases h
+  split at h; · cases h
+  split at h; · cases h
+  split at h; · cases h
+  rename_i s1 h1
+  split at h; · cases h
+  rename_i s2 h2
+  split at h; · cases h
+  rename_i s3 h3
+  obtain ⟨-, -, b1⟩ := State.send_some (by simp) h1
+  obtain ⟨-, -, b2⟩ := State.send_some (by simp) h2
+  obtain ⟨-, -, b3⟩ := State.send_some (by simp) h3
+  obtain ⟨-, -, b4⟩ := State.send_some (by simp) h
+  have f1 := State.send_fields h1
+  have f2 := State.send_fields h2
+  have f3 := State.send_fields h3
+  have f4 := State.send_fields h
+  have hpos := hc ac (app?_mem hac)
+  generalize hid : (s.pools.filter (·.app == app)).length + 1 = id at *
+  have b4' : ∀ z d, s'.bal z d = if z = .module ∧ d = .pool app id then s3.bal z d else
+      if z = .user creator ∧ d = .pool app id then s3.bal z d + max ammPs ac.minInitSupply else s3.bal z d := by
+    intro z d
+    rw [b4]
+    simp only [State.bal, Bank.get_add, Prod.mk.injEq]
+    by_cases h1 : z = .module ∧ d = .pool app id
+    · obtain ⟨rfl, rfl⟩ := h1; simp
+    · by_cases h2 : z = .user creator ∧ d = .pool app id
+      · obtain ⟨rfl, rfl⟩ := h2; simp
+      · have : ¬ (Acct.module = z ∧ Denom.pool app id = d) := fun hh => h1 ⟨hh.1.symm, hh.2.symm⟩
+        simp [h1, h2, this]
+  refine ⟨?_, ?_, ?_, ?_, ?_, ?_⟩
+  · apply hi.escrow_of
+    · intro d; rw [b4']; simp [b3, b2, b1]
+    · rw [f4.2.2.1]; show s3.deps = _; rw [f3.2.2.1, f2.2.2.1, f1.2.2.1]
+    · rw [f4.2.2.2.1]; show s3.wdrs = _; rw [f3.2.2.2.1, f2.2.2.2.1, f1.2.2.2.1]
+  · apply hi.pairEsc_of
+    · intro a q d
+      refine ⟨?_, ?_, ?_⟩ <;> (rw [b4']; simp [b3, b2, b1])
+    · rw [f4.2.2.2.2.1]; show s3.orders = _; rw [f3.2.2.2.2.1, f2.2.2.2.2.1, f1.2.2.2.2.1]
+  · apply hi.farm_of
+    · intro a q; rw [b4']
+      by_cases hk : (Acct.module = Acct.module ∧ Denom.pool a q = Denom.pool app id) <;> simp [hk, b3, b2, b1]
+    · rw [f4.2.2.2.2.2.2.1]; show s3.farmers = _; rw [f3.2.2.2.2.2.2.1, f2.2.2.2.2.2.2.1, f1.2.2.2.2.2.2.1]
+  · rw [f4.2.1]
+    show ∀ q ∈ s3.pools ++ [_], _
+    rw [f3.2.1, f2.2.1, f1.2.1]
+    intro q hq h0
+    rcases List.mem_append.mp hq with hq | hq
+    · exact hi.zero q hq h0
+    · simp only [List.mem_singleton] at hq
+      subst hq
+      simp only at h0
+      have : ac.minInitSupply ≤ max ammPs ac.minInitSupply := Nat.le_max_right _ _
+      omega
+  · apply hi.qpos_of
+    rw [f4.2.2.2.2.2.2.1]; show s3.farmers = _; rw [f3.2.2.2.2.2.2.1, f2.2.2.2.2.2.2.1, f1.2.2.2.2.2.2.1]
+  · apply hi.ords_of
+    rw [f4.2.2.2.2.1]; show s3.orders = _; rw [f3.2.2.2.2.1, f2.2.2.2.2.1, f1.2.2.2.2.1]
+
+theorem qTotal_append (l m : List (Nat × Int)) : qTotal (l ++ m) = qTotal l + qTotal m := by
+  induction l with
+  | nil => simp [qTotal]
+  | cons x t ih => simp [qTotal, ih]; omega
+
+theorem isFarmer_true {a p u : Nat} {x : Farmer} (h : isFarmer a p u x = true) : x.app = a ∧ x.pool = p ∧ x.owner = u := by
+  simpa [isFarmer, and_assoc] using h
+
+theorem farm_inv {cfg : Cfg} {s s' : State} {app user pool amt : Nat} {ext : Bool} (hi : Inv cfg s)
+    (h : farm cfg s app user pool amt ext = some s') : Inv cfg s' := by
+  unfold farm at h
+  split at h; · cases h
+  rename_i hvb
+  split at h; · cases h
+  split at h; · cases h
+  split at h; · cases h
+  split at h; · cases h
+  rename_i s1 h1
+  obtain ⟨-, -, b1⟩ := State.send_some (by simp) h1
+  have f1 := State.send_fields h1
+  have hamt : 0 < amt := by omega
+  have hbase : ∀ d, s1.bal .gEscrow d = s.bal .gEscrow d := by intro d; simp [b1]
+  have hpe : ∀ a q d, s1.bal (.pairEscrow a q) d = s.bal (.pairEscrow a q) d ∧ s1.bal (.mOut a q) d = s.bal (.mOut a q) d ∧
+      s1.bal (.mIn a q) d = s.bal (.mIn a q) d := by
+    intro a q d; refine ⟨?_, ?_, ?_⟩ <;> simp [b1]
+  have hmod : ∀ a q, s1.bal .module (.pool a q) = if a = app ∧ q = pool then s.bal .module (.pool app pool) + amt else s.bal .module (.pool a q) := by
+    intro a q; rw [b1]; simp
+  split at h
+  · rename_i f0 hf0
+    cases h
+    rw [f1.2.2.2.2.2.2.1] at hf0
+    obtain ⟨hfa, hfp, -⟩ := isFarmer_true (findBy_some_prop hf0).1
+    refine ⟨hi.escrow_of hbase f1.2.2.1 f1.2.2.2.1, hi.pairEsc_of hpe f1.2.2.2.2.1, ?_, hi.zero_of f1.2.1, ?_, hi.ords_of f1.2.2.2.2.1⟩
+    · intro a q
+      show s1.bal .module (.pool a q) = farmSum a q (modBy _ _ s1.farmers)
+      rw [f1.2.2.2.2.2.2.1, hmod]
+      have hs := sumOver_modBy (farmTerm a q) (fun f => { f with queued := f.queued ++ [(amt, s.now)] }) hf0
+      have hinv := hi.farm a q
+      have hinv' := hi.farm app pool
+      unfold farmSum at hinv hinv' ⊢
+      simp only [farmTerm, qTotal_append, qTotal, Nat.add_zero, hfa, hfp] at hs
+      by_cases hk : a = app ∧ q = pool
+      · obtain ⟨rfl, rfl⟩ := hk; simp at hs ⊢; omega
+      · have : ¬ (app = a ∧ pool = q) := fun hh => hk ⟨hh.1.symm, hh.2.symm⟩
+        simp [hk, this] at hs ⊢; omega
+    · show ∀ f ∈ modBy _ _ s1.farmers, _
+      rw [f1.2.2.2.2.2.2.1]
+      apply forall_modBy hi.qpos
+      intro x hx q hq
+      simp only [List.mem_append, List.mem_singleton] at hq
+      rcases hq with hq | rfl
+      · exact hi.qpos x (findBy_some_prop hx).2 q hq
+      · exact hamt
+  · cases h
+    refine ⟨hi.escrow_of hbase f1.2.2.1 f1.2.2.2.1, hi.pairEsc_of hpe f1.2.2.2.2.1, ?_, hi.zero_of f1.2.1, ?_, hi.ords_of f1.2.2.2.2.1⟩
+    · intro a q
+      show s1.bal .module (.pool a q) = farmSum a q (s1.farmers ++ [_])
+      rw [f1.2.2.2.2.2.2.1, hmod]
+      unfold farmSum
+      rw [sumOver_append]
+      have hinv := hi.farm a q
+      unfold farmSum at hinv
+      simp only [sumOver, farmTerm, qTotal, Nat.add_zero]
+      by_cases hk : a = app ∧ q = pool
+      · obtain ⟨rfl, rfl⟩ := hk; simp; omega
+      · have : ¬ (app = a ∧ pool = q) := fun hh => hk ⟨hh.1.symm, hh.2.symm⟩
+        simp [hk, this]; omega
+    · show ∀ f ∈ s1.farmers ++ [_], _
+      rw [f1.2.2.2.2.2.2.1]
+      intro f hf q hq
+      rcases List.mem_append.mp hf with hf | hf
+      · exact hi.qpos f hf q hq
+      · simp only [List.mem_singleton] at hf
+        subst hf
+        simp only [List.mem_singleton] at hq
+        subst hq; exact hamt
+
+/-! the unfarm loop -/
+
+theorem deduct_zero_of_left : ∀ (l : List (Nat × Int)) (r : Nat), 0 < (deduct l r).2 → ∀ q ∈ (deduct l r).1, q.1 = 0 := by
+  intro l
+  induction l with
+  | nil => intro r _ q hq; simp [deduct] at hq
+  | cons x t ih =>
+    intro r hpos q hq
+    simp only [deduct] at hpos hq
+    by_cases h0 : (deduct t r).2 = 0
+    · simp [h0] at hpos
+    · by_cases h1 : (deduct t r).2 ≤ x.1
+      · simp [h0, h1] at hpos
+      · simp only [h0, h1, if_false] at hpos hq
+        simp only [List.mem_cons] at hq
+        rcases hq with rfl | hq
+        · rfl
+        · exact ih r (by omega) q hq
+
+theorem deduct_total : ∀ (l : List (Nat × Int)) (r : Nat), qTotal (deduct l r).1 + r = qTotal l + (deduct l r).2 := by
+  intro l
+  induction l with
+  | nil => intro r; simp [deduct, qTotal]
+  | cons x t ih =>
+    intro r
+    have := ih r
+    simp only [deduct]
+    by_cases h0 : (deduct t r).2 = 0
+    · simp [h0, qTotal] at this ⊢; omega
+    · by_cases h1 : (deduct t r).2 ≤ x.1
+      · simp [h0, h1, qTotal]; omega
+      · simp [h0, h1, qTotal]; omega
+
+theorem keepNonzero_zeros : ∀ (l : List (Nat × Int)), (∀ q ∈ l, q.1 = 0) → keepNonzero l = [] ∧ qTotal l = 0 := by
+  intro l
+  induction l with
+  | nil => intro _; simp [keepNonzero, qTotal]
+  | cons x t ih =>
+    intro h
+    have hx := h x (by simp)
+    have := ih (fun q hq => h q (by simp [hq]))
+    simp [keepNonzero, qTotal, hx, this]
+
+theorem deduct_keep : ∀ (l : List (Nat × Int)) (r : Nat), (∀ q ∈ l, 0 < q.1) →
+    qTotal (keepNonzero (deduct l r).1) = qTotal (deduct l r).1 ∧ ∀ q ∈ keepNonzero (deduct l r).1, 0 < q.1 := by
+  intro l
+  induction l with
+  | nil => intro r _; simp [deduct, keepNonzero]
+  | cons x t ih =>
+    intro r hpos
+    have hx := hpos x (by simp)
+    have iht := ih r (fun q hq => hpos q (by simp [hq]))
+    simp only [deduct]
+    by_cases h0 : (deduct t r).2 = 0
+    · have hx' : ¬ x.1 = 0 := by omega
+      simp only [h0, if_true, keepNonzero, hx', if_false, qTotal, iht.1, true_and]
+      intro q hq
+      simp only [List.mem_cons] at hq
+      rcases hq with rfl | hq
+      · exact hx
+      · exact iht.2 q hq
+    · have hz := keepNonzero_zeros _ (deduct_zero_of_left t r (by omega))
+      by_cases h1 : (deduct t r).2 ≤ x.1
+      · simp only [h0, h1, if_true, if_false, keepNonzero]
+        by_cases h2 : x.1 - (deduct t r).2 = 0
+        · simp [h2, qTotal, hz.2]
+        · simp only [h2, if_false, qTotal, hz.1, hz.2, true_and]
+          intro q hq
+          simp only [List.mem_cons, List.not_mem_nil, or_false] at hq
+          subst hq; simp; omega
+      · simp [h0, h1, keepNonzero, qTotal, hz.2]
+
+theorem unfarm_inv {cfg : Cfg} {s s' : State} {app user pool amt : Nat} {ext : Bool} (hi : Inv cfg s)
+    (h : unfarm cfg s app user pool amt ext = some s') : Inv cfg s' := by
+  unfold unfarm at h
+  split at h; · cases h
+  split at h; · cases h
+  split at h; · cases h
+  split at h; · cases h
+  split at h; · cases h
+  rename_i f0 hf0
+  split at h; · cases h
+  rename_i htot
+  simp only [] at h
+  split at h; · cases h
+  rename_i hact
+  split at h; · cases h
+  rename_i s1 h1
+  cases h
+  obtain ⟨-, -, b1⟩ := State.send_some (by simp) h1
+  have f1 := State.send_fields h1
+  obtain ⟨hfa, hfp, -⟩ := isFarmer_true (findBy_some_prop hf0).1
+  have hfm := (findBy_some_prop hf0).2
+  have hbase : ∀ d, s1.bal .gEscrow d = s.bal .gEscrow d := by intro d; simp [b1]
+  have hpe : ∀ a q d, s1.bal (.pairEscrow a q) d = s.bal (.pairEscrow a q) d ∧ s1.bal (.mOut a q) d = s.bal (.mOut a q) d ∧
+      s1.bal (.mIn a q) d = s.bal (.mIn a q) d := by
+    intro a q d; refine ⟨?_, ?_, ?_⟩ <;> simp [b1]
+  have hmod : ∀ a q, s1.bal .module (.pool a q) = if a = app ∧ q = pool then s.bal .module (.pool app pool) - amt else s.bal .module (.pool a q) := by
+    intro a q; rw [b1]; simp
+  have hdt := deduct_total f0.queued amt
+  have hdk := deduct_keep f0.queued amt (hi.qpos f0 hfm)
+  refine ⟨hi.escrow_of hbase f1.2.2.1 f1.2.2.2.1, hi.pairEsc_of hpe f1.2.2.2.2.1, ?_, hi.zero_of f1.2.1, ?_, hi.ords_of f1.2.2.2.2.1⟩
+  · intro a q
+    show s1.bal .module (.pool a q) = farmSum a q (modBy _ _ s1.farmers)
+    rw [f1.2.2.2.2.2.2.1, hmod]
+    have hs := sumOver_modBy (farmTerm a q)
+      (fun f => { f with queued := keepNonzero (deduct f0.queued amt).1, active := f.active - (deduct f0.queued amt).2 }) hf0
+    have hinv := hi.farm a q
+    unfold farmSum at hinv ⊢
+    simp only [farmTerm, hfa, hfp, hdk.1] at hs
+    by_cases hk : a = app ∧ q = pool
+    · obtain ⟨rfl, rfl⟩ := hk; simp at hs ⊢; omega
+    · have : ¬ (app = a ∧ pool = q) := fun hh => hk ⟨hh.1.symm, hh.2.symm⟩
+      simp [hk, this] at hs ⊢; omega
+  · show ∀ f ∈ modBy _ _ s1.farmers, _
+    rw [f1.2.2.2.2.2.2.1]
+    apply forall_modBy hi.qpos
+    intro x _ q hq
+    exact hdk.2 q hq
+
+theorem depositAndFarm_inv {cfg : Cfg} {s s' : State} {app user pool dx dy ax ay pc : Nat} {ext : Bool} (hi : Inv cfg s)
+    (h : depositAndFarm cfg s app user pool dx dy ax ay pc ext = some s') : Inv cfg s' := by
+  unfold depositAndFarm at h
+  split at h; · cases h
+  rename_i s1 id h1
+  split at h; · cases h
+  rename_i s2 h2
+  split at h; · cases h
+  split at h; · cases h
+  exact farm_inv (execDeposit_inv (depositReq_inv hi h1) h2) h
+
+theorem unfarmAndWithdraw_inv {cfg : Cfg} {s s' : State} {app user pool amt x y : Nat} {ext : Bool} (hi : Inv cfg s)
+    (h : unfarmAndWithdraw cfg s app user pool amt x y ext = some s') : Inv cfg s' := by
+  unfold unfarmAndWithdraw at h
+  split at h; · cases h
+  rename_i s1 h1
+  split at h; · cases h
+  rename_i s2 id h2
+  exact execWithdraw_inv (withdrawReq_inv (unfarm_inv hi h1) h2) h
+
+/-! ### every operation keeps the invariant -/
+
+theorem step_inv {cfg : Cfg} (hc : CfgOk cfg) {s s' : State} {op : Op} (hi : Inv cfg s) (h : step cfg s op = some s') :
+    Inv cfg s' := by
+  cases op with
+  | block ht t => simp only [step, Option.some.injEq] at h; subst h; exact hi.with_block _ _
+  | createPair a c b q e => exact createPair_inv hi h
+  | createPool a c p r dx dy ps e => exact createPool_inv hc hi h
+  | deposit a u p dx dy e =>
+    simp only [step] at h
+    cases hd : depositReq cfg s a u p dx dy e with
+    | none => simp [hd] at h
+    | some r => obtain ⟨s1, id⟩ := r; simp [hd] at h; subst h; exact depositReq_inv hi hd
+  | withdraw a u p pc e =>
+    simp only [step] at h
+    cases hd : withdrawReq cfg s a u p pc e with
+    | none => simp [hd] at h
+    | some r => obtain ⟨s1, id⟩ := r; simp [hd] at h; subst h; exact withdrawReq_inv hi hd
+  | order a u p t b mo mp pr am l e => exact placeOrder_inv hi h
+  | mmOrder a u p bs ss l e => exact mmOrder_inv hi h
+  | cancel a u p i => exact cancelOrder_inv hi h
+  | cancelAll a u ps => exact cancelAll_inv hi h
+  | cancelMM a u p => exact cancelMM_inv hi h
+  | farm a u p n e => exact farm_inv hi h
+  | unfarm a u p n e => exact unfarm_inv hi h
+  | depositAndFarm a u p dx dy ax ay pc e => exact depositAndFarm_inv hi h
+  | unfarmAndWithdraw a u p n x y e => exact unfarmAndWithdraw_inv hi h
+  | endBlock a ms ds ws => exact endBlock_inv hi h
+  | beginBlock a => simp only [step, Option.some.injEq] at h; subst h; exact beginBlock_inv hi a
+
+theorem stepT_inv {cfg : Cfg} (hc : CfgOk cfg) {s : State} (op : Op) (hi : Inv cfg s) : Inv cfg (stepT cfg s op) := by
+  unfold stepT
+  cases h : step cfg s op with
+  | none => exact hi
+  | some s' => exact step_inv hc hi h
+
+theorem runT_inv {cfg : Cfg} (hc : CfgOk cfg) (ops : List Op) : ∀ s, Inv cfg s → Inv cfg (runT cfg s ops) := by
+  induction ops with
+  | nil => intro s hi; exact hi
+  | cons op ops ih => intro s hi; exact ih _ (stepT_inv hc op hi)
+
+theorem genesis_bal (funds : List (Nat × Nat × Nat)) (a : Acct) (d : Denom) (ha : ∀ n, a ≠ .user n) :
+    (genesis funds).bal a d = 0 := by
+  unfold genesis State.bal
+  have : ∀ (b : Bank), b.get (a, d) = 0 → (funds.foldl (fun b f => b.add (.user f.1) (.coin f.2.1) f.2.2) b).get (a, d) = 0 := by
+    induction funds with
+    | nil => intro b hb; exact hb
+    | cons f t ih =>
+      intro b hb
+      apply ih
+      rw [Bank.get_add]
+      have : ¬ ((Acct.user f.1, Denom.coin f.2.1) = (a, d)) := by
+        intro e; exact ha f.1 (Prod.mk.inj e).1.symm
+      simp [this, hb]
+  exact this [] rfl
+
+theorem genesis_inv (cfg : Cfg) (funds : List (Nat × Nat × Nat)) : Inv cfg (genesis funds) := by
+  refine ⟨?_, ?_, ?_, ?_, ?_, ?_⟩
+  · intro d; rw [genesis_bal _ _ _ (by simp)]; rfl
+  · intro a p d
+    rw [genesis_bal _ _ _ (by simp), genesis_bal _ _ _ (by simp), genesis_bal _ _ _ (by simp)]; rfl
+  · intro a p; rw [genesis_bal _ _ _ (by simp)]; rfl
+  · intro q hq; cases hq
+  · intro f hf; cases hf
+  · intro o ho; cases ho
 
 end Comdex.LiqLedger
